@@ -16,10 +16,12 @@ deserialization / global-default toggles):
     "view after history = view alone" are compared with the real code.
 """
 import atexit
+import concurrent.futures
 import json
 import os
 import subprocess
 import sys
+import threading
 
 from . import world_exec as X
 
@@ -27,32 +29,40 @@ ROOT = os.path.dirname(os.path.dirname(os.path.dirname(os.path.abspath(__file__)
 
 # ------------------------------------------------------------------ fork server client
 
-_server = None
 _prims = None
+_local = threading.local()
+_all_servers = []
+_lock = threading.Lock()
+N_WORKERS = int(os.environ.get("VERIF_WORLD_WORKERS", "8"))
 
 
 def server():
-    global _server
-    if _server is None or _server.poll() is not None:
+    """one fork server per calling thread"""
+    s = getattr(_local, "server", None)
+    if s is None or s.poll() is not None:
         env = dict(os.environ)
         repo = os.environ.get("VERIF_REPO", "/repo")
         env["PYTHONPATH"] = os.pathsep.join([repo, ROOT, os.path.join(ROOT, ".deps")])
         env.setdefault("PYTHONHASHSEED", "0")
-        _server = subprocess.Popen([sys.executable, "-m", "harness.suites.world_exec"], cwd=ROOT, env=env,
-                                   stdin=subprocess.PIPE, stdout=subprocess.PIPE, text=True, bufsize=1)
-        atexit.register(_shutdown)
-    return _server
+        s = subprocess.Popen([sys.executable, "-m", "harness.suites.world_exec"], cwd=ROOT, env=env,
+                             stdin=subprocess.PIPE, stdout=subprocess.PIPE, text=True, bufsize=1)
+        _local.server = s
+        with _lock:
+            if not _all_servers:
+                atexit.register(_shutdown)
+            _all_servers.append(s)
+    return s
 
 
 def _shutdown():
-    global _server
-    if _server is not None:
-        try:
-            _server.stdin.close()
-            _server.wait(timeout=5)
-        except Exception:
-            _server.kill()
-        _server = None
+    with _lock:
+        for s in _all_servers:
+            try:
+                s.stdin.close()
+                s.wait(timeout=5)
+            except Exception:
+                s.kill()
+        del _all_servers[:]
 
 
 def call(job):
@@ -269,7 +279,7 @@ def class_ids(case):
 
 # ------------------------------------------------------------------ real code
 
-def run_impl(case):
+def run_impl_now(case):
     ids = class_ids(case)
     hist = call({"types": case["types"], "ops": case["ops"], "fp": ids})
     if "harness_exc" in hist:
@@ -285,6 +295,44 @@ def run_impl(case):
         alone[str(c)] = {"fp": r["fp"].get(str(c)), "state": r["state"].get(str(c)),
                          "defined": str(c) in r["state"]}
     return {"hist": hist, "alone": alone, "closures": closures, "prims": prim_table()}
+
+
+_pending = []
+_results = {}
+
+
+def _key(case):
+    return json.dumps(case, sort_keys=True)
+
+
+def announce(cases):
+    """cases that `run_impl` will be asked for next: they are executed concurrently (one fork server per
+    worker thread) on the first `run_impl` call; every job still runs in its own pristine child"""
+    _pending.extend(cases)
+    return cases
+
+
+def run_impl(case):
+    if _pending:
+        batch = list(_pending)
+        del _pending[:]
+        prim_table()
+        with concurrent.futures.ThreadPoolExecutor(N_WORKERS) as ex:
+            for c, r in zip(batch, ex.map(_safe_run, batch)):
+                _results[_key(c)] = r
+    r = _results.pop(_key(case), None)
+    if r is None:
+        r = run_impl_now(case)
+    if isinstance(r, Exception):
+        raise r
+    return r
+
+
+def _safe_run(case):
+    try:
+        return run_impl_now(case)
+    except Exception as e:   # re-raised in run_impl so that core records it per case
+        return e
 
 
 # ------------------------------------------------------------------ wire
